@@ -67,6 +67,11 @@ func c15Run(c *c15Case) (obs c15Obs) {
 			ctx, cancel := context.WithDeadline(context.Background(), end)
 			return ctx, cancel, end
 		}
+		if c.Ctx == "cancel-with-distant-deadline" {
+			ctx, cancel := context.WithTimeout(context.Background(), time.Minute)
+			time.AfterFunc(time.Duration(c.AtMs)*time.Millisecond, cancel)
+			return ctx, cancel, end
+		}
 		ctx, cancel := context.WithCancel(context.Background())
 		time.AfterFunc(time.Duration(c.AtMs)*time.Millisecond, cancel)
 		return ctx, cancel, end
@@ -195,6 +200,81 @@ func c15Run(c *c15Case) (obs c15Obs) {
 		}
 		// nobody serves the server channel: the finishing request is never answered
 		report(measure(func(ctx context.Context) error { _, err := cc.FinishSession(ctx); return err }))
+	case "ch.finish-after-unclaimed":
+		// A response that reaches the table while its caller is on its way out (context ended, not
+		// yet cleaned up) is handed to a reply channel nobody reads any more; the receiver goroutine
+		// must not stay behind it, or every later operation that stops the receiver hangs whatever
+		// its context says. Forced through the scheduling gates; the server is the caller here.
+		cc, sc, ok := established()
+		if !ok {
+			return
+		}
+		installGates()
+		prefix := fmt.Sprintf("k%d", atomic.AddInt64(&c05CaseSeq, 1))
+		g := newGateSched()
+		gateReg.Store(prefix, g)
+		defer gateReg.Delete(prefix)
+		defer g.freeAll()
+		req := &lime.RequestCommand{}
+		req.ID = prefix + "-1"
+		req.Method = lime.CommandMethodGet
+		req.SetURIString("/x")
+		pctx, pcancel := context.WithCancel(context.Background())
+		pdone := make(chan struct{})
+		go func() { defer close(pdone); _, _ = sc.ProcessCommand(pctx, req) }()
+		at := func(point string, isReq bool) *gateWaiter {
+			return g.find(point, func(k interface{}) bool {
+				if isReq {
+					return k == interface{}(req)
+				}
+				_, ok := k.(*lime.ResponseCommand)
+				return ok
+			})
+		}
+		const T = 3 * time.Second
+		okStep := g.await(T, func() bool { return at("pc.registered", true) != nil })
+		if okStep {
+			g.releaseW(g.findL("pc.registered", func(k interface{}) bool { return k == interface{}(req) }))
+			select {
+			case <-cc.ReqCmdChan():
+			case <-time.After(T):
+				okStep = false
+			}
+		}
+		if okStep {
+			pcancel()
+			okStep = g.await(T, func() bool { return at("pc.cleanup", true) != nil })
+		}
+		if okStep {
+			r := &lime.ResponseCommand{Status: lime.CommandStatusSuccess}
+			r.ID = req.ID
+			r.Method = lime.CommandMethodGet
+			sctx, scancel := context.WithTimeout(context.Background(), T)
+			_ = cc.SendResponseCommand(sctx, r)
+			scancel()
+			okStep = g.await(T, func() bool { return at("rcv.deleted", false) != nil })
+		}
+		if okStep {
+			g.releaseW(g.findL("rcv.deleted", func(k interface{}) bool { _, ok := k.(*lime.ResponseCommand); return ok }))
+			time.Sleep(2 * time.Millisecond) // the hand-off
+			g.releaseW(g.findL("pc.cleanup", func(k interface{}) bool { return k == interface{}(req) }))
+			select {
+			case <-pdone:
+			case <-time.After(T):
+				okStep = false
+			}
+		}
+		pcancel()
+		g.freeAll()
+		if !okStep {
+			obs.Note = "harness: the unclaimed-response schedule could not be forced"
+			return
+		}
+		done, err, lat, total := measure(func(ctx context.Context) error { return sc.FinishSession(ctx) })
+		report(done, err, lat, total)
+		if done && err == nil {
+			obs.Err = "completed" // finishing has nothing to wait for: success is the expected outcome
+		}
 	case "ch.establish-client":
 		cc := lime.NewClientChannel(ct, 1)
 		report(measure(func(ctx context.Context) error {
@@ -232,10 +312,10 @@ func init() {
 			}
 			cases = []*c15Case{wrap.Case, wrap.Case, wrap.Case}
 		} else {
-			ops := []string{"l.accept", "t.recv", "t.send-blocked", "ch.send-blocked", "ch.process", "ch.finish-client", "ch.establish-client", "ch.establish-server"}
+			ops := []string{"l.accept", "t.recv", "t.send-blocked", "ch.send-blocked", "ch.process", "ch.finish-client", "ch.establish-client", "ch.establish-server", "ch.finish-after-unclaimed"}
 			for _, tr := range []string{"inproc", "tcp", "ws"} {
 				for _, op := range ops {
-					for _, k := range []string{"deadline", "cancel"} {
+					for _, k := range []string{"deadline", "cancel", "cancel-with-distant-deadline"} {
 						reps := 1
 						if e.Thorough() {
 							reps = 4
@@ -272,6 +352,11 @@ func init() {
 				e.Rep.Note(o.Note)
 				continue
 			}
+			if o.Err == "completed" {
+				// an operation that has nothing to wait for finished its work before its context ended
+				e.Rep.Count("completed before the end of its context")
+				continue
+			}
 			if o.Err == "inconclusive" {
 				e.Rep.Count("inconclusive: the peer's buffers absorbed everything")
 				continue
@@ -280,7 +365,7 @@ func init() {
 			e.Rep.Count("governed by=" + kind)
 			// the statement
 			bound := 600 // ms of slack for scheduling on a loaded machine
-			if c.Ctx == "cancel" && kind == "poll" {
+			if c.Ctx != "deadline" && kind == "poll" {
 				bound += c15PollMs
 			}
 			what := fmt.Sprintf("%s over %s, context %s at %d ms", c.Op, c.Transport, c.Ctx, c.AtMs)
@@ -297,10 +382,14 @@ func init() {
 			// the model
 			if e.Drv != nil {
 				req := map[string]interface{}{"m": "timed", "kind": kind, "poll": c15PollMs, "now": 0}
-				if c.Ctx == "deadline" {
+				switch c.Ctx {
+				case "deadline":
 					req["deadline"] = c.AtMs
-				} else {
+				case "cancel":
 					req["cancelAt"] = c.AtMs
+				default:
+					req["cancelAt"] = c.AtMs
+					req["deadline"] = 60000
 				}
 				var r struct {
 					Returns bool   `json:"returns"`
